@@ -51,6 +51,7 @@ const (
 	NotServed   // the kind is momentarily not discoverable: NoKindMatchError, request not applied
 	Unavailable // 503, request not applied
 	Missing     // 404 on the request itself (e.g. the API group is being re-registered), request not applied
+	Expired     // 410 Gone / ResourceExpired (a continue token outlived the compaction window), request not applied
 )
 
 // EnumFaults is what the fault enumerations iterate over: the six classic outcomes plus two
@@ -65,7 +66,7 @@ var DiscoveryFaults = []Outcome{NotServed, Unavailable, Missing}
 var AllFaults = []Outcome{Conflict, ServerError, Timeout, CrashBefore, CrashAfter, ErrorAfter}
 
 func (o Outcome) String() string {
-	return [...]string{"ok", "conflict", "servererror", "timeout", "crashbefore", "crashafter", "errorafter", "notserved", "unavailable", "missing"}[o]
+	return [...]string{"ok", "conflict", "servererror", "timeout", "crashbefore", "crashafter", "errorafter", "notserved", "unavailable", "missing", "expired"}[o]
 }
 
 // Crash is the sentinel panic that kills an actor at an API call.
@@ -200,6 +201,10 @@ type World struct {
 
 	// KeepBodies makes the trace keep before/after copies of objects (needed by most monitors).
 	KeepBodies bool
+	// PageCap, when > 0, caps the page size of Lists that ask for pagination (Limit > 0): a
+	// scaling device that lets a workload with a handful of objects exercise the paths a client
+	// takes with more objects than its page limit.
+	PageCap int
 }
 
 // NewWorld creates an empty cluster. The PRNG only drives generateName suffixes.
@@ -613,7 +618,7 @@ func (w *World) Clone() *World {
 	defer w.mu.Unlock()
 	n := NewWorld(w.Scheme, w.rng.Uint64())
 	n.rv, n.uidN, n.clock = w.rv, w.uidN, w.clock
-	n.KeepBodies = w.KeepBodies
+	n.KeepBodies, n.PageCap = w.KeepBodies, w.PageCap
 	for k, o := range w.objs {
 		n.objs[k] = runtime.DeepCopyJSON(o)
 	}
